@@ -434,7 +434,9 @@ Definition set_fails (nv : pyval * pyval) : bool :=
 (* self._unbox_exc(payload): the exception object, or the exception raised while building it *)
 Definition load_exc (payload : pyval) : M xid :=
   fun s =>
-    let '(eff, r) := Vinegar.vload (c_rflags C) (s_env S) payload in
+    (* the class lookup in an imported module is getattr(module, name, None) (Vinegar.LkGetattr, the most permissive form);
+       environments of this model carry no module-level __getattr__ entries, so the other lookup forms behave the same *)
+    let '(eff, r) := Vinegar.vload Vinegar.LkGetattr (c_rflags C) (s_env S) payload in
     let s' := fold_left (fun s e => add_ev s (EVin e)) eff s in
     match r with
     | Ok Vinegar.LStop => (s', ROk (XStd StopIteration))
